@@ -107,7 +107,8 @@ pub(crate) mod verif_proofs {
     }
 
     /// [C17.fire] [C17.once] a SendPadding action that fires: PaddingSent for its machine and side exactly at the
-    /// scheduled time, flags copied, and the slot is cleared; another pending action with a different time stays
+    /// scheduled time, flags copied, and the slot is cleared; the neighbouring machine's pending action stays - also
+    /// when it is due at the very same instant (it fires in the next step, it is not lost)
     #[kani::proof]
     #[kani::stub(Integration::action_delay, any_delay)]
     #[kani::stub(Integration::reporting_delay, any_delay)]
@@ -118,56 +119,60 @@ pub(crate) mod verif_proofs {
         let mut c = side(with_integration);
         let mut s = side(with_integration);
         let on_client: bool = kani::any();
-        let slot: usize = if kani::any() { 0 } else { 1 };
         let fire = t0() + any_dur();
-        let (bypass, replace): (bool, bool) = (kani::any(), kani::any());
-        let mid = MachineId::from_raw(slot);
-        let act = TriggerAction::SendPadding { timeout: any_dur(), bypass, replace, machine: mid };
-        // a second pending action of the neighbouring machine on the same side, due at another time
-        let other_time = t0() + any_dur();
-        kani::assume(other_time != fire);
-        let other_act = TriggerAction::SendPadding { timeout: any_dur(), bypass: kani::any(), replace: kani::any(), machine: MachineId::from_raw(1 - slot) };
+        let times = [t0() + any_dur(), t0() + any_dur()];
+        kani::assume(times[0] == fire || times[1] == fire);
+        let flags = [(kani::any::<bool>(), kani::any::<bool>()), (kani::any::<bool>(), kani::any::<bool>())];
+        let acts = [
+            TriggerAction::SendPadding { timeout: any_dur(), bypass: flags[0].0, replace: flags[0].1, machine: MachineId::from_raw(0) },
+            TriggerAction::SendPadding { timeout: any_dur(), bypass: flags[1].0, replace: flags[1].1, machine: MachineId::from_raw(1) },
+        ];
         {
             let me = if on_client { &mut c } else { &mut s };
-            me.scheduled_action[slot] = Some(ScheduledAction { action: act, time: fire });
-            me.scheduled_action[1 - slot] = Some(ScheduledAction { action: other_act.clone(), time: other_time });
+            me.scheduled_action[0] = Some(ScheduledAction { action: acts[0].clone(), time: times[0] });
+            me.scheduled_action[1] = Some(ScheduledAction { action: acts[1].clone(), time: times[1] });
         }
         let e = do_scheduled_action(&mut c, &mut s, fire);
         let Some(e) = e else { panic!("[C17.fire] a due padding action is executed") };
         let me = if on_client { &c } else { &s };
-        assert!(matches!(e.event, TriggerEvent::PaddingSent { machine } if machine == mid), "[C17.fire] caused by that machine's action");
+        // exactly one of the due actions fires now (the one in the lower slot), the other one stays pending
+        let f = if times[0] == fire { 0 } else { 1 };
+        assert!(matches!(e.event, TriggerEvent::PaddingSent { machine } if machine == MachineId::from_raw(f)), "[C17.fire] caused by that machine's action");
         assert!(e.time == fire, "[C17.fire] exactly at issue time plus timeout (the scheduled time)");
-        assert!(e.client == on_client && e.contains_padding && e.bypass == bypass && e.replace == replace, "[C17.fire]");
-        assert!(me.scheduled_action[slot].is_none(), "[C17.once] happens once");
-        assert!(me.scheduled_action[1 - slot] == Some(ScheduledAction { action: other_act, time: other_time }), "[C17.once] other pending actions stay");
+        assert!(e.client == on_client && e.contains_padding && e.bypass == flags[f].0 && e.replace == flags[f].1, "[C17.fire]");
+        assert!(me.scheduled_action[f].is_none(), "[C17.once] happens once");
+        assert!(me.scheduled_action[1 - f] == Some(ScheduledAction { action: acts[1 - f].clone(), time: times[1 - f] }),
+                "[C17.once] other pending actions stay (an action that is not superseded is not lost)");
+        kani::cover!(times[0] == fire && times[1] == fire, "both due at once");
         std::mem::forget(c);
         std::mem::forget(s);
     }
 
     /// [C18.end] the internal timer that expires: TimerEnd for its machine and side exactly at the expiry, once
-    /// (the slot is cleared), other timers stay
+    /// (the slot is cleared); the neighbouring machine's timer stays - also when it expires at the very same instant
     #[kani::proof]
     #[kani::unwind(6)]
     pub(crate) fn k_sim_timer_ends() {
         let mut c = side(false);
         let mut s = side(false);
         let on_client: bool = kani::any();
-        let slot: usize = if kani::any() { 0 } else { 1 };
         let expiry = t0() + any_dur();
-        let other = any_opt_instant();
-        kani::assume(other != Some(expiry));
+        let timers = [any_opt_instant(), any_opt_instant()];
+        kani::assume(timers[0] == Some(expiry) || timers[1] == Some(expiry));
         {
             let me = if on_client { &mut c } else { &mut s };
-            me.scheduled_internal_timer[slot] = Some(expiry);
-            me.scheduled_internal_timer[1 - slot] = other;
+            me.scheduled_internal_timer[0] = timers[0];
+            me.scheduled_internal_timer[1] = timers[1];
         }
         let e = do_internal_timer(&mut c, &mut s, expiry);
         let Some(e) = e else { panic!("[C18.end] an expiring timer is reported") };
         let me = if on_client { &c } else { &s };
-        assert!(matches!(e.event, TriggerEvent::TimerEnd { machine } if machine == MachineId::from_raw(slot)), "[C18.end]");
+        let f = if timers[0] == Some(expiry) { 0 } else { 1 };
+        assert!(matches!(e.event, TriggerEvent::TimerEnd { machine } if machine == MachineId::from_raw(f)), "[C18.end]");
         assert!(e.time == expiry && e.client == on_client, "[C18.end] exactly at the timer's expiry");
-        assert!(me.scheduled_internal_timer[slot].is_none(), "[C18.once] exactly once");
-        assert!(me.scheduled_internal_timer[1 - slot] == other, "[C18.once] other timers stay");
+        assert!(me.scheduled_internal_timer[f].is_none(), "[C18.once] exactly once");
+        assert!(me.scheduled_internal_timer[1 - f] == timers[1 - f], "[C18.once] other timers stay");
+        kani::cover!(timers[0] == Some(expiry) && timers[1] == Some(expiry), "both expire at once");
         std::mem::forget(c);
         std::mem::forget(s);
     }
